@@ -34,6 +34,8 @@ def configs(tier):
         [["DE", "UE"], ["DE", "DE"], ["SD", "TE"], ["UE", "UE"], ["DE", "UE", "DE"], ["UE", "DE", "TE"]]
     for cs in sets:
         for fn in ("none", "uf"):
+            if len(cs) > 2 and (fn == "uf" or cs != ["DE", "UE", "DE"]):
+                continue          # one three-link configuration (they are ~30 times the size of a two-link one)
             out.append({"classes": cs, "funcs": fn, "entry": "make"})
     out.append({"classes": ["DE", "UE"], "funcs": "none", "entry": "customizable"})
     out.append({"classes": ["DE", "UE"], "funcs": "none", "entry": "make", "stale_attr": True})
